@@ -142,6 +142,7 @@ func cmdCheck(args []string) int {
 	merge(ctx.runFrames())
 	merge(ctx.runPkgState())
 	merge(ctx.runFieldInvScan())
+	merge(ctx.runRxp())
 	for _, extra := range extraJobs[*prop] {
 		merge(extra(ctx))
 	}
